@@ -271,6 +271,7 @@ def runWrite (args : List String) : Res :=
     let (pdOn, tk, bits, thr) : Bool × Bool × Nat × Nat :=
       match pd.splitOn ":" with
       | ["on", tk, bits, thr] => (true, tk == "1", bits.toNat!, thr.toNat!)
+      | ["on", tk, bits, thr, _level] => (true, tk == "1", bits.toNat!, thr.toNat!)
       | _ => (false, false, 15, 0)
     let cfg : Writer.Cfg := { isServer := role == "s", pdEnabled := pdOn, threshold := thr, bits := bits,
                               writeMax := wmax.toNat!, checkUtf8 := s2b utf8 }
